@@ -176,3 +176,122 @@ mod pair {
         assert!(ok);
     }
 }
+
+
+// ---------- C05: the interpreter's numeric dispatch functions, whole (rule R9: args as a slice) ----------
+// What is proved here is the dispatch layer: for every integer type the arm taken passes (first, second) in order to the
+// arithmetic of THAT carrier and wraps the result in THAT carrier. Oracle: the same-named primitive on the carrier (the
+// kernels' mathematical semantics are proved separately in unit c05_kani). Branch dispatch (integer_branch, float_branch)
+// needs real EnvThunk arguments, whose im::HashMap environment CBMC does not finish (measured: 900 s timeout).
+#[cfg(kani)]
+mod dispatch {
+    use super::*;
+    fn run<const N: usize>(ity: IntegerType, op: IntegerOperation, args: [SemValue; N]) -> Option<IntegerLiteral> {
+        let r = integer_arithmetic(ity, op, &args);
+        let got = match &r {
+            | Ok(Computation::Ret(Return(v))) => match v.as_ref() {
+                | Value::SemValue(SemValue::Literal(Literal::Integer(l))) => Some(*l),
+                | _ => None,
+            },
+            | _ => None,
+        };
+        core::mem::forget(r); core::mem::forget(args);
+        got
+    }
+    macro_rules! int_dispatch {
+        ($name:ident, $name_div:ident, $variant:ident, $carrier:ty, $ity:expr) => {
+            /// add/sub through the whole dispatch function: all operand pairs
+            #[kani::proof]
+            fn $name() {
+                let a: $carrier = kani::any();
+                let b: $carrier = kani::any();
+                let k: u8 = kani::any();
+                kani::assume(k < 2);
+                let op = IntegerOperation::ALL[k as usize];
+                let got = run($ity, op, [SemValue::Literal(Literal::Integer(IntegerLiteral::$variant(a))), SemValue::Literal(Literal::Integer(IntegerLiteral::$variant(b)))]);
+                let want: $carrier = match op {
+                    | IntegerOperation::Add => a.wrapping_add(b),
+                    | IntegerOperation::Sub => a.wrapping_sub(b),
+                    | _ => a.wrapping_mul(b),
+                };
+                assert!(got == Some(IntegerLiteral::$variant(want)));
+            }
+            /// mul/div/mod through the whole dispatch function. RESTRICTED: the first operand is fully symbolic, the second ranges
+            /// over {3, MAX, and -1 for signed carriers} (a second symbolic multiplier/divider does not finish in SAT at 32/64 bits;
+            /// CBMC's SMT back end crashes on this program). Distinguishes operand order, operation, carrier and the MIN / -1 case.
+            #[kani::proof]
+            fn $name_div() {
+                let a: $carrier = kani::any();
+                let which: u8 = kani::any();
+                kani::assume(which < 3);
+                let b: $carrier = match which { 0 => 3, 1 => <$carrier>::MAX, _ => if <$carrier>::MIN != 0 { (0 as $carrier).wrapping_sub(1) } else { 7 } };
+                let k: u8 = kani::any();
+                kani::assume(k >= 2 && k < 5);
+                let op = IntegerOperation::ALL[k as usize];
+                let is_div = matches!(op, IntegerOperation::Div);
+                let got = run($ity, op, [SemValue::Literal(Literal::Integer(IntegerLiteral::$variant(a))), SemValue::Literal(Literal::Integer(IntegerLiteral::$variant(b)))]);
+                let min_m1 = <$carrier>::MIN != 0 && a == <$carrier>::MIN && which == 2;
+                let want: $carrier = if matches!(op, IntegerOperation::Mul) { a.wrapping_mul(b) }
+                    else if is_div { if min_m1 { <$carrier>::MIN } else { a / b } } else { if min_m1 { 0 } else { a % b } };
+                assert!(got == Some(IntegerLiteral::$variant(want)));
+            }
+        };
+    }
+    int_dispatch!(integer_arithmetic_int8, integer_muldivmod_int8, Int8, i8, IntegerType::Int8);
+    int_dispatch!(integer_arithmetic_int16, integer_muldivmod_int16, Int16, i16, IntegerType::Int16);
+    int_dispatch!(integer_arithmetic_int32, integer_muldivmod_int32, Int32, i32, IntegerType::Int32);
+    int_dispatch!(integer_arithmetic_int64, integer_muldivmod_int64, Int64, i64, IntegerType::Int64);
+    int_dispatch!(integer_arithmetic_uint8, integer_muldivmod_uint8, UInt8, u8, IntegerType::UInt8);
+    int_dispatch!(integer_arithmetic_uint16, integer_muldivmod_uint16, UInt16, u16, IntegerType::UInt16);
+    int_dispatch!(integer_arithmetic_uint32, integer_muldivmod_uint32, UInt32, u32, IntegerType::UInt32);
+    int_dispatch!(integer_arithmetic_uint64, integer_muldivmod_uint64, UInt64, u64, IntegerType::UInt64);
+
+    fn any_float_op() -> FloatOperation {
+        let k: u8 = kani::any();
+        kani::assume(k < 4);
+        FloatOperation::ALL[k as usize]
+    }
+    /// float_arithmetic: the arm for each width computes at THAT width on (first, second) in order (bit-identical, NaN aside)
+    #[kani::proof]
+    fn float_arithmetic_float32() {
+        let a: u32 = kani::any();
+        let b: u32 = kani::any();
+        let op = any_float_op();
+        let args = [SemValue::Literal(Literal::Float(FloatLiteral::Float32(a))), SemValue::Literal(Literal::Float(FloatLiteral::Float32(b)))];
+        let r = float_arithmetic(FloatType::Float32, op, &args);
+        let got = match &r {
+            | Ok(Computation::Ret(Return(v))) => match v.as_ref() {
+                | Value::SemValue(SemValue::Literal(Literal::Float(FloatLiteral::Float32(x)))) => Some(*x),
+                | _ => None,
+            },
+            | _ => None,
+        };
+        core::mem::forget(r); core::mem::forget(args);
+        let (x, y) = (f32::from_bits(a), f32::from_bits(b));
+        let want = match op { FloatOperation::Add => x + y, FloatOperation::Sub => x - y, FloatOperation::Mul => x * y, _ => x / y };
+        assert!(got.is_some());
+        let g = f32::from_bits(got.unwrap());
+        assert!((g.is_nan() && want.is_nan()) || got.unwrap() == want.to_bits());
+    }
+    #[kani::proof]
+    fn float_arithmetic_float64() {
+        let a: u64 = kani::any();
+        let b: u64 = kani::any();
+        let op = any_float_op();
+        let args = [SemValue::Literal(Literal::Float(FloatLiteral::Float64(a))), SemValue::Literal(Literal::Float(FloatLiteral::Float64(b)))];
+        let r = float_arithmetic(FloatType::Float64, op, &args);
+        let got = match &r {
+            | Ok(Computation::Ret(Return(v))) => match v.as_ref() {
+                | Value::SemValue(SemValue::Literal(Literal::Float(FloatLiteral::Float64(x)))) => Some(*x),
+                | _ => None,
+            },
+            | _ => None,
+        };
+        core::mem::forget(r); core::mem::forget(args);
+        let (x, y) = (f64::from_bits(a), f64::from_bits(b));
+        let want = match op { FloatOperation::Add => x + y, FloatOperation::Sub => x - y, FloatOperation::Mul => x * y, _ => x / y };
+        assert!(got.is_some());
+        let g = f64::from_bits(got.unwrap());
+        assert!((g.is_nan() && want.is_nan()) || got.unwrap() == want.to_bits());
+    }
+}
